@@ -20,6 +20,12 @@ import (
 	"github.com/rpcpool/yellowstone-faithful/indexmeta"
 )
 
+// maxValueSize is the largest value size whose entry stride (HashSize + value size) still fits the 8-bit stride field.
+const maxValueSize = 255 - HashSize
+
+// maxKeySize is the largest key length the 16-bit length field of the spill files can hold.
+const maxKeySize = 65535
+
 // Builder creates new compactindex files.
 type Builder struct {
 	Header     Header
@@ -52,8 +58,8 @@ func NewBuilderSized(
 	if valueSizeBytes == 0 {
 		return nil, fmt.Errorf("valueSizeBytes must be > 0")
 	}
-	if valueSizeBytes > 255 {
-		return nil, fmt.Errorf("valueSizeBytes must be <= 255")
+	if valueSizeBytes > maxValueSize {
+		return nil, fmt.Errorf("valueSizeBytes must be <= %d", maxValueSize)
 	}
 	if numItems == 0 {
 		return nil, fmt.Errorf("numItems must be > 0")
@@ -123,6 +129,9 @@ func (b *Builder) getValueSize() int {
 // Index generation will fail if the same key is inserted twice.
 // The writer must not pass a value greater than targetFileSize.
 func (b *Builder) Insert(key []byte, value []byte) error {
+	if len(key) > maxKeySize {
+		return fmt.Errorf("key too long: %d bytes (max %d)", len(key), maxKeySize)
+	}
 	return b.buckets[b.Header.BucketHash(key)].writeTuple(key, value)
 }
 
